@@ -1,8 +1,107 @@
-(** C04: persistent-client registry.  Only statements; proofs in Proofs/ClientIndex.v. *)
+(** C04: requests map to one persistent client by fixed precedence; the
+    registry stays consistent.  Only statements; proofs in Proofs/ClientIndex.v. *)
 From AGH Require Import Base.Run Model.ClientIndex Proofs.ClientIndex.
 Local Open Scope N_scope.
 
+(** The invariant (every map entry points at a stored client that lists the
+    key, and conversely; hence names and identifiers pairwise disjoint; the
+    subnet list strictly sorted by [subnet_compare]) holds in every state
+    reachable from the empty registry by ANY history of add / update / remove,
+    accepted or rejected. *)
+Theorem C04_index_consistent : forall ops : list op, Inv (run ops empty_index).
+Proof. exact index_consistent. Qed.
+Print Assumptions C04_index_consistent.
+
+Theorem C04_invariant_preserved : forall ix o, Inv ix -> Inv (fst (step ix o)).
+Proof. exact Inv_step. Qed.
+Print Assumptions C04_invariant_preserved.
+
+(** Under the invariant every name / ClientID / address / MAC / subnet
+    resolves to a uid exactly when the client stored under that uid lists
+    it, and such an owner is unique. *)
+Theorem C04_resolution : forall ix, Inv ix -> resolution_statement ix /\ owners_unique_statement ix.
+Proof. exact resolution_full. Qed.
+Print Assumptions C04_resolution.
+
+Theorem C04_resolution_any_history : forall ops,
+  resolution_statement (run ops empty_index) /\ owners_unique_statement (run ops empty_index).
+Proof. exact resolution_any_history. Qed.
+Print Assumptions C04_resolution_any_history.
+
+(** An operation that returns an error leaves the registry equal. *)
 Theorem C04_failed_op_is_noop : forall ix o ix' e,
   step ix o = (ix', e) -> e <> EOk -> ix' = ix.
 Proof. exact failed_op_is_noop. Qed.
 Print Assumptions C04_failed_op_is_noop.
+
+(** An accepted add / update never shares a name or identifier with another stored client. *)
+Theorem C04_add_rejects_sharing : forall ix c ix',
+  Inv ix -> step ix (OAdd c) = (ix', EOk) ->
+  forall u c', deref ix u = Some c' -> ~ shares c c'.
+Proof. exact add_rejects_sharing. Qed.
+Print Assumptions C04_add_rejects_sharing.
+
+Theorem C04_update_rejects_sharing : forall ix n c ix',
+  Inv ix -> step ix (OUpdate n c) = (ix', EOk) ->
+  forall u c', deref ix u = Some c' -> c_name c' <> n -> ~ shares c c'.
+Proof. exact update_rejects_sharing. Qed.
+Print Assumptions C04_update_rejects_sharing.
+
+(** The client chosen for a request (ClientID [id], address [a], DHCP oracle):
+    owner of the ClientID, else owner of the exact address, else owner of the
+    containing prefix of maximal length (first in subnet order), else owner of
+    the MAC of the address' lease, else none; and this determines the answer. *)
+Theorem C04_precedence : forall ix dhcp id a,
+  Inv ix -> resolves ix dhcp id a (acf_find ix dhcp id a).
+Proof. exact precedence. Qed.
+Print Assumptions C04_precedence.
+
+Theorem C04_precedence_unique : forall ix dhcp id a r1 r2,
+  Inv ix -> resolves ix dhcp id a r1 -> resolves ix dhcp id a r2 -> r1 = r2.
+Proof. exact precedence_unique. Qed.
+Print Assumptions C04_precedence_unique.
+
+(** The request's effective flags are the chosen client's exactly when it
+    opts out of the global ones; blocked services independently; the stored
+    record always exists (no nil client). *)
+Theorem C04_settings : forall ix dhcp id a g,
+  Inv ix ->
+  match acf_find ix dhcp id a with
+  | None => apply_client_filtering ix dhcp id a g = Some g
+  | Some u => exists c, deref ix u = Some c /\ c_uid c = u /\
+                        apply_client_filtering ix dhcp id a g = Some (apply_client c g)
+  end.
+Proof. exact settings_applied. Qed.
+Print Assumptions C04_settings.
+
+Theorem C04_settings_switches : forall c g,
+  let s := apply_client c g in
+  s_client_name s = c_name c /\
+  (c_own_settings c = true ->
+     s_filtering s = c_filtering c /\ s_safesearch s = c_safesearch c /\
+     s_safebrowsing s = c_safebrowsing c /\ s_parental s = c_parental c) /\
+  (c_own_settings c = false ->
+     s_filtering s = s_filtering g /\ s_safesearch s = s_safesearch g /\
+     s_safebrowsing s = s_safebrowsing g /\ s_parental s = s_parental g) /\
+  (c_own_blocked c = true -> s_blocked s = c_blocked c) /\
+  (c_own_blocked c = false -> s_blocked s = s_blocked g).
+Proof. exact apply_client_spec. Qed.
+Print Assumptions C04_settings_switches.
+
+(** Non-vacuity: a concrete reachable registry with overlapping /8 /16 /24
+    prefixes, a ClientID, an exact address, a lease MAC; rejected and accepted
+    operations on it. *)
+Example C04_premises_satisfiable :
+  Inv ex_ix /\
+  length (by_uid ex_ix) = 3%nat /\
+  acf_find ex_ix ex_dhcp [99;108;105] [10;9;9;9] = Some 2 /\
+  acf_find ex_ix ex_dhcp [] [10;1;2;3] = Some 2 /\
+  acf_find ex_ix ex_dhcp [] [10;1;2;77] = Some 2 /\
+  acf_find ex_ix ex_dhcp [] [10;1;200;1] = Some 3 /\
+  acf_find ex_ix ex_dhcp [] [10;200;0;1] = Some 1 /\
+  acf_find ex_ix ex_dhcp [] [192;168;1;5] = Some 3 /\
+  acf_find ex_ix ex_dhcp [] [8;8;8;8] = None /\
+  snd (step ex_ix (OAdd (ex_client 5 [101] [] [[10;9;9;9]] [] [] true true))) = EIP /\
+  snd (step ex_ix (OUpdate [97] (ex_client 6 [98] [] [] [([10;0;0;0], 8)] [] true true))) = EName /\
+  snd (step ex_ix (OUpdate [97] (ex_client 7 [97] [] [] [([10;0;0;0], 8); ([10;2;0;0], 8)] [] false false))) = EOk.
+Proof. exact example_registry. Qed.
